@@ -70,6 +70,7 @@ def base_table(rng, rn, nrows):
 
 def run_case(case):
     fam = case['family']
+    nested = False
     rng = boot.rng(case['seed'], 'C17', fam, case['idx'])
     d = lab.df()
     counters = {'rows_compared': 0, 'cells_accounted': 0}
@@ -119,9 +120,22 @@ def run_case(case):
                          regex=regex, resources=copy.deepcopy(selector))
         cfg = {'specs': specs, 'regex': regex, 'fields': order}
 
+        nested = rng.random() < 0.3
+        if nested:
+            # a kept field holds a nested value and a later row function edits it in place: every emitted row is its own
+            order = order + ['tags']
+            fields = fields + [('tags', 'array')]
+            sfields = gen.schema_fields(fields)
+            for rn in res_names:
+                for r_ in tables[rn]:
+                    r_['tags'] = ['t', {'k': [0]}]
+            cov['config']['unpivot/nested_kept_value'] = 1
+
         def ref(F, R):
             f2, r2, n = refmodel.unpivot(F, R, specs, extra_keys, extra_value, regex)
             counters['cells_accounted'] += n * len(R)
+            if nested:
+                r2 = [dict(r_, tags=['t', {'k': [0, 1]}, 'x']) for r_ in copy.deepcopy(r2)]
             return f2, r2
         pre = []
     else:
@@ -162,6 +176,22 @@ def run_case(case):
             ref = lambda F, R: (F, refmodel.deduplicate(R, pk))   # noqa: E731
     srcs = [lab.source(rn, sfields, tables[rn]) for rn in res_names]
     steps = srcs + pre + [step]
+    if fam == 'unpivot' and nested:
+        sel_names = set(selected)
+
+        def nest_edit(package):
+            yield package.pkg
+            for res in package:
+                if res.res.name in sel_names:
+                    def it(res=res):
+                        for row in res:
+                            row['tags'].append('x')
+                            row['tags'][1]['k'].append(1)
+                            yield row
+                    yield it()
+                else:
+                    yield res
+        steps.append(nest_edit)
     if cfg.get('twice'):
         steps.append(d.deduplicate(resources=copy.deepcopy(selector)))
     got = lab.run(steps)
